@@ -18,7 +18,7 @@ from ..core import e1, faults
 PROPERTY = "C20"
 LEVEL = "fault_enumeration"
 RULE = (
-    "scenarios: read(str path) of plain / BOM / latin-1 / wrapped / inner-~A files under default (chardet), "
+    "scenarios: read(str path) of plain / BOM / latin-1 / wrapped / inner-~A files and of files ending in a DOS Ctrl-Z marker or form feed (round 8) under default (chardet), "
     "autodetect_encoding=False (ad-hoc sniff) and explicit encoding=; read(pathlib.Path); write(path) with default, 1.2 "
     "and wrap options; to_csv(path); write(fileobj) and to_csv(fileobj) with caller-supplied objects; two-call sequences on one LASFile (a path call that succeeds or fails, then a call with the caller's file object); input-induced "
     "failures (no sections, LiDAR magic, header error, reshape error, strict decoding error, missing file, write() "
@@ -60,6 +60,9 @@ READ_FILES = {
     # encodings whose decoder carries state across a rewind (byte-order mark at the start)
     "gzip": __import__("gzip").compress(BASE.encode("ascii")), "gzip-nonascii": __import__("gzip").compress(NONASCII.encode("utf-8")),
     "zip-magic": b"PK\x03\x04" + b"\x00" * 60, "nul-bytes": BASE.encode("ascii").replace(b"my well", b"my\x00well"),
+    # round 8: DOS end-of-file marker (Ctrl-Z) / form feed / blanks as the last bytes of the file
+    "ctrlz": BASE.encode("ascii") + b"\x1a", "ctrlz-crlf": BASE.replace("\n", "\r\n").encode("ascii") + b"\x1a\r\n",
+    "ctrlz-nosections": b"not a las file\n\x1a", "formfeed": BASE.encode("ascii") + b"\x0c\n", "ctrlz-header-only": BASE.split("~ASCII")[0].encode("ascii") + b"\x1a",
     "utf16": NONASCII.encode("utf-16"), "utf32": NONASCII.encode("utf-32"), "utf16le": NONASCII.encode("utf-16-le"),
 }
 
@@ -109,6 +112,15 @@ READ_SCENARIOS = [
     ("read:utf32:default", "utf32", {}, False),
     ("read:utf16le:encoding", "utf16le", {"encoding": "utf-16-le"}, False),
     ("read:plain:encoding-utf16", "plain", {"encoding": "utf-16"}, False),
+    ("read:ctrlz:default", "ctrlz", {}, False),
+    ("read:ctrlz:encoding", "ctrlz", {"encoding": "ascii"}, True),
+    ("read:ctrlz:noauto", "ctrlz", {"autodetect_encoding": False}, False),
+    ("read:ctrlz:ignore-data", "ctrlz", {"encoding": "utf-8", "ignore_data": True}, False),
+    ("read:ctrlz:normal", "ctrlz", {"encoding": "utf-8", "engine": "normal"}, False),
+    ("read:ctrlz-crlf:encoding", "ctrlz-crlf", {"encoding": "utf-8"}, False),
+    ("read:ctrlz-nosections", "ctrlz-nosections", {}, True),
+    ("read:ctrlz-header-only:encoding", "ctrlz-header-only", {"encoding": "latin-1"}, False),
+    ("read:formfeed:encoding", "formfeed", {"encoding": "ascii"}, False),
     ("read:headererr:utf16", "utf16", {"encoding": "utf-16", "ignore_header_errors": False, "engine": "normal"}, False),
 ]
 
